@@ -115,7 +115,7 @@ def run(tier):
     if tier == "quick":
         explore.run(spec, report, tier, 5, 300000, 600)
     else:
-        explore.run(spec, report, tier, 6, 3000000, 1800)
+        explore.run(spec, report, tier, 6, 3000000, 1200)
     cov_sync = dict(report.coverage)
     sub = Report(PROP, "model_checking", tier)
     explore.run(C14AsyncSpec(), sub, tier, 4 if tier == "quick" else 5, 200000, 600 if tier == "quick" else 900)
